@@ -4,10 +4,11 @@ CONSTANTS
   MaxTx = 3
   MaxReaders = 1
   MaxEdits = 1
-  SyncBeforeMeta = FALSE
-  PublishOnError = FALSE
+  SyncBeforeMeta = TRUE
+  PublishOnError = TRUE
   Crashes = {"kill"}
   Faults = TRUE
+  MaxFaults = 2
   Damages = FALSE
 INVARIANT TypeOK
 INVARIANT ReaderPinned
